@@ -9,6 +9,7 @@ import (
 	"encoding/json"
 	"flag"
 	"fmt"
+	"regexp"
 	"sort"
 	"strings"
 
@@ -84,6 +85,16 @@ func normCheck(c string) string {
 		c = strings.ReplaceAll(c, x, "")
 	}
 	return c
+}
+
+var reQuoted = regexp.MustCompile("`[^`]*`|'[^']*'")
+var reDigits = regexp.MustCompile(`[0-9]+`)
+
+// msgClass: an error message without names and numbers (labels a disagreement only).
+func msgClass(m string) string {
+	m = strings.ToLower(reQuoted.ReplaceAllString(m, ""))
+	m = reDigits.ReplaceAllString(m, "n")
+	return strings.Join(strings.Fields(m), " ")
 }
 
 func pick(rs [][]string, idx ...int) [][]string {
@@ -318,13 +329,21 @@ func main() {
 		} else if r.Kind == "panic" {
 			got = "panic"
 		}
+		opLabel := tr.Op
+		if tr.Ret == "fail" {
+			opLabel += "(fail)" // the statement was expected to fail without effect
+		}
 		mismatch := func(what string, exp, g interface{}) {
-			rep.Mismatches = append(rep.Mismatches, vio.Mismatch{Case: i, Signature: "C43|" + tr.Op + "|" + what, Expected: exp, Got: g,
+			rep.Mismatches = append(rep.Mismatches, vio.Mismatch{Case: i, Signature: "C43|" + opLabel + "|" + what, Expected: exp, Got: g,
 				Input: map[string]interface{}{"sql": tr.SQL, "behaviour": append([]json.RawMessage{}, prefix...)}})
 			skipping = true
 		}
 		if got != tr.Ret {
-			mismatch("ret="+got, tr.Ret, got+" "+r.Msg)
+			what := "ret=" + got
+			if got != "ok" {
+				what += ":" + msgClass(r.Msg)
+			}
+			mismatch(what, tr.Ret, got+" "+r.Msg)
 			return nil
 		}
 		if tr.Ret == "ok" {
